@@ -27,3 +27,21 @@ Theorem C06_all_blocks_printed : forall N order sched,
   cur s' = length order /\ printed s' = flat_map (fun i => lines_of i (outl s')) order.
 Proof. exact all_blocks_printed. Qed.
 Print Assumptions C06_all_blocks_printed.
+
+(* ------------------------------------------------------------------------------------------------------------
+   The first sentence of C06 on the whole-run model, for EVERY world in which layer set-ups succeed and no
+   tearDown raises an error (tearDown may raise NotImplementedError, so that a sequential run resumes later layers
+   in subprocesses), for every --repeat count, with and without -x: the failure list, the error list, the number
+   of tests run and the verdict are the same for every -j N — whether all layers run in the parent, some are
+   resumed in children, or each runs in its own child.  (The skip count is not: open finding C12-child-skips.) *)
+From ZT Require Import Layers LayersFacts Run RunOnce RunModes.
+
+Theorem C06_same_results_for_every_N : forall w,
+  wf (lw w) -> (forall b, In b (tests w) -> t_layer b < nlayers (lw w)) ->
+  (forall l, good w l) ->
+  (forall l sc n, l_teardown (spec_of w l) = Some sc -> script_at sc n <> HRaise) ->
+  forall o n,
+  let a := run w (with_procs o n) in let b := run w (with_procs o 1) in
+  r_fail a = r_fail b /\ r_err a = r_err b /\ r_ran a = r_ran b /\ r_failed a = r_failed b.
+Proof. exact run_independent_of_procs. Qed.
+Print Assumptions C06_same_results_for_every_N.
